@@ -107,7 +107,7 @@ func (c04Engine) Decode(raw []byte) (interface{}, error) {
 
 var editBytes = []byte("(){}[]?:.,#\"'\\| &=!<>*/%+-~^@$`_;0123456789aeExXnot in\n\t\xff\x80\xc3\xe6\x00")
 
-var editStrs = []string{"/*", "*/", "//", "/**/", "/*/", "#", "..", "?.", "?:", "**", "not in", " in ", "\\\"", "'", "0x", "1e", "1e+", "{", "}}", "(((", "|", "&&", "nil", "\n//", "\xf0\x9f", "\u00e9"}
+var editStrs = []string{"/*", "*/", "//", "/**/", "/*/", "#", "..", "?.", "?:", "**", "not in", " in ", "\\\"", "'", "0x", "1e", "1e+", "{", "}}", "(((", "|", "&&", "nil", "\n//", "\xf0\x9f", "\u00e9", "\u0663", "\uff15", "A\u0663", "\r", "`", "``"}
 
 func (c04Engine) Gen(seed uint64, idx int, tier string) interface{} {
 	r := NewRNG(seed)
@@ -166,8 +166,8 @@ func (c04Engine) Gen(seed uint64, idx int, tier string) interface{} {
 			sc.Visitor = append(sc.Visitor, [2]int{-1, fr.Intn(nReplacementKinds)})
 		}
 	}
-	names := []string{"CI", "CS", "CB", "C64", "F1", "Nope", "A", "Xs", "Fn", "Va", "", "Any", "On", "Tup"}
-	opFns := []string{"OpA", "OpB", "F1", "F2", "Nope", "A", "G0", "CS", "Any", "On", "Mp", "Fn", "An"}
+	names := []string{"CI", "CS", "CB", "C64", "F1", "Nope", "A", "Xs", "Fn", "Va", "", "Any", "On", "Tup", "CN", "CP", "CL", "Nest"}
+	opFns := []string{"OpA", "OpB", "F1", "F2", "Nope", "A", "G0", "CS", "Any", "On", "Mp", "Fn", "An", "Va", "Tup", "CN", "CP", "PtrM"}
 	for j := 0; j < 6; j++ {
 		var o C04Opt
 		o.NoEnv = fr.Chance(1, 6)
@@ -195,7 +195,7 @@ func (c04Engine) Gen(seed uint64, idx int, tier string) interface{} {
 	return sc
 }
 
-const nReplacementKinds = 12
+const nReplacementKinds = 14
 
 func replacementNode(kind int) ast.Node {
 	one := func() ast.Node { return &ast.IntegerNode{Value: 7} }
@@ -223,6 +223,10 @@ func replacementNode(kind int) ast.Node {
 		return &ast.ConstantNode{Value: []int{1, 2}}
 	case 10:
 		return &ast.PointerNode{}
+	case 12:
+		return &ast.ConstantNode{Value: nil}
+	case 13:
+		return &ast.ConstantNode{Value: map[string]interface{}{"k": []int{1}}}
 	default:
 		return &ast.FloatNode{Value: 1.5}
 	}
@@ -648,7 +652,7 @@ func (c04Engine) Run(sci interface{}, ctx *RunCtx) *Finding {
 		}
 		// also the simplest sources under this option set (result directives on nil, literals)
 		extra := []string{"nil", "1", "\"s\"", "[]", "{}", "Xs", "Any", "nil ?: 1", "#", "S in Pm", "\"k1\" in Pm", "A not in Pm", "Pm", "Lvl", "EmbV + Lvl", "a /*", "1 + 2 /* note", "/*/", "A // c",
-			"-5000000000000000000..5000000000000000000", "len(1..9223372036854775807)", "A in -9223372036854775807..9223372036854775807", "(-9223372036854775808)..0", "1 + `", "`a` + `", "2 ** 1000", "10 ** 19"}
+			"-5000000000000000000..5000000000000000000", "len(1..9223372036854775807)", "A in -9223372036854775807..9223372036854775807", "(-9223372036854775808)..0", "1 + `", "`a` + `", "2 ** 1000", "10 ** 19", "A\u0663 > 1", "1 + \uff15", "CN(1)", "[CN(1)]", "CP(nil)", "PromV", "PromV + 1", "O ** O", "Va ** Va"}
 		if o.OperatorOp != "" {
 			// operands without a static type, dynamic operands and mismatched operands
 			// around the overloaded operator
